@@ -5,6 +5,9 @@ GLUE = dict(extra_prop_files=["props/Glue.v"])      # the tie of Blocks.v to the
 INITV = ["props/InitVars.v"]                        # the effect table of every init_vars (T-initvars)
 INITV_TRUST = ["translator initvars.py (T7): the init_vars of blocks/*.py read as a list of effects (bind a new dictionary of "
                "given-or-new variables, drop the next states, clamp under a flag) -> gen/InitVars.v; any other statement fails closed"]
+LOOK = ["props/Lookups.v"]                         # pinned source of the derived look-ups and link views (T-lookups)
+LOOK_TRUST = ["translator lookups.py (T8): the bodies of Network's derived look-ups, `elements`, `states`, `next_states` and of the "
+              "two link views pinned as normalised source text (a pin, not a translation: any edit breaks it)"]
 GLUE_TRUST = ["translator blocks.py (T6): symbolic execution of the dynamics methods of blocks/*.py into gen/BlocksGen.v; its "
               "idiom table (element attributes = model accessors, Network look-ups = Graph.v functions, engine methods = "
               "engine record fields, class = kind) is trusted; Blocks.v is PROVED equal to the regenerated definitions "
@@ -30,10 +33,10 @@ PROPS = {
                 trusted=DYN_TRUST + ["Paramcoq only produces the term network_step_R; it is type-checked by the kernel",
                                      "ToFunction.v (hand-written model of to_function; tied by the compile correspondence)",
                                      "one symbolic type in the model: SX vs MX agreement is dynamic only"]),
-    "C04": dict(GLUE, prop_file="props/C04.v", generators=ENG + ["T-blocks"] + ["T-tables"], module="harness.p_dyn",
+    "C04": dict(extra_prop_files=GLUE["extra_prop_files"] + LOOK, prop_file="props/C04.v", generators=ENG + ["T-blocks", "T-tables", "T-lookups"], module="harness.p_dyn",
                 slice="ToFunction.v arguments (names, symbols) + result trees vs F.name_in/out, sizes, numeric values",
                 trusted=DYN_TRUST + ["ToFunction.v (hand-written model of to_function; tied by the compile correspondence)",
-                                     "translator facts.py (the tests on `compact` of the compile helpers -> gen/Tables.v)"]),
+                                     "translator facts.py (the tests on `compact` of the compile helpers -> gen/Tables.v)"] + LOOK_TRUST),
     "C05": dict(GLUE, prop_file="props/C05.v", generators=ENG + ["T-blocks"], module="harness.p_dyn",
                 slice="ToFunction.v (more_out) result trees vs the compiled function",
                 trusted=["no axioms (Print Assumptions: closed under the global context)",
@@ -46,14 +49,14 @@ PROPS = {
                 trusted=["no axioms", "Validity.v / Graph.v as models of Network.is_valid and the networkx graph (tied by the correspondence)",
                          "the nine conditions as formalised in specs/C06_spec.v",
                          "translator facts.py (report / raise sites of Network.is_valid -> gen/Tables.v)"]),
-    "C08": dict(prop_file="props/C08.v", generators=["T-tables"], module="harness.p_hist",
+    "C08": dict(extra_prop_files=LOOK, prop_file="props/C08.v", generators=["T-tables", "T-lookups"], module="harness.p_hist",
                 slice="Construct.v + Cache.v (generated invalidation table) vs Network on histories of calls and reads",
                 trusted=["no axioms", "Construct.v / Cache.v as models of networkx.DiGraph, functools.cached_property and "
                          "util/funcs.py::invalidate_cache (tied by the history correspondence)",
-                         "translator tables.py (decorator lists of network.py -> gen/Tables.v)"]),
-    "C09": dict(prop_file="props/C09.v", generators=[], module="harness.p_hist",
+                         "translator tables.py (decorator lists of network.py -> gen/Tables.v)"] + LOOK_TRUST),
+    "C09": dict(extra_prop_files=LOOK, prop_file="props/C09.v", generators=["T-lookups"], module="harness.p_hist",
                 slice="Construct.v vs Network on construction histories and the malformed-path stream",
-                trusted=["no axioms", "Construct.v as model of the construction calls on networkx.DiGraph (tied by the history correspondence)"]),
+                trusted=["no axioms", "Construct.v as model of the construction calls on networkx.DiGraph (tied by the history correspondence)"] + LOOK_TRUST),
     "C07": dict(GLUE, prop_file="props/C07.v", generators=ENG + ["T-blocks"], module="harness.p_dyn",
                 slice="Blocks.v trees vs NumPy/CasADi; every graph the implementation's is_valid accepts is stepped and compiled",
                 trusted=DYN_TRUST + ["PARTIAL: Python exceptions outside the modelled failure points, NumPy/CasADi shape rules and IEEE "
